@@ -763,7 +763,7 @@ theorem ledger_run {s : St} {a : Sp} (h : Rel s a) (hl : LifeInv s.life) (ho : s
 fault and ends with the buffer released: every non-zero token that was in the buffer at the start or was stored
 later — all of them pairwise distinct — has either been destroyed exactly once and never handed out, or handed to
 the caller exactly once (`pop_move`) and never destroyed by the buffer. Nothing leaks, nothing is destroyed twice. -/
-theorem exactly_once (slots : List Nat) (hasW heap : Bool) (hlen : 1 ≤ slots.length) (ops : List Op)
+theorem exactly_once (slots : List Nat) (hasW heap : Bool) (hlen : 1 ≤ slots.length) (hlt : slots.length < 2 ^ 63) (ops : List Op)
     (hal : AllowedRun (St.init slots hasW heap true) (Sp.init slots.length hasW) ops)
     (hown : ∀ op ∈ ops, OwnedOp op = true)
     (hnf : (run (St.init slots hasW heap true) ops).1.fault = none)
@@ -772,7 +772,7 @@ theorem exactly_once (slots : List Nat) (hasW heap : Bool) (hlen : 1 ≤ slots.l
     (t : Nat) (ht : t ≠ 0) (hmem : t ∈ slots ++ storedAll ops (run (St.init slots hasW heap true) ops).2) :
     (run (St.init slots hasW heap true) ops).1.drops.count t +
       (handedAll ops (run (St.init slots hasW heap true) ops).2).count t = 1 := by
-  have := ledger_run (rel_init slots hasW heap true hlen) (lifeInv_init slots hasW heap true) rfl ops hal hown hnf t ht
+  have := ledger_run (rel_init slots hasW heap true hlen hlt) (lifeInv_init slots hasW heap true) rfl ops hal hown hnf t ht
   have e0 : (St.init slots hasW heap true).bal t = slots.count t := by simp [St.bal, St.inBuf, St.init]
   rw [e0] at this
   have e1 : (run (St.init slots hasW heap true) ops).1.bal t = (run (St.init slots hasW heap true) ops).1.drops.count t := by
